@@ -13,8 +13,9 @@
      satisfies when the stopping test has fired (k < maxit); that the iterations do converge is NOT proved.
    * LA.norm(.)**2 is modelled as the exact sum of squares; tol, abstol, gradtol >= 0. *)
 From CV Require Import Base.Tac Base.LinAlg Base.Cmp Base.QcLin Model.C16_Solve
-     Proofs.C16_CG Proofs.C16_Prox Proofs.C16_Wrap Proofs.C16_Spec.
+     Proofs.C16_CG Proofs.C16_Prox Proofs.C16_Wrap Proofs.C16_Spec Proofs.C16_Grad Proofs.C16_Mono Proofs.C16_LMfull.
 From Coq Require Import Reals QArith Qcanon Ring.
+From Coquelicot Require Import Coquelicot.
 
 (* ------------------------------------------------------------------------------------------------
    CGLS
@@ -352,6 +353,7 @@ Print Assumptions C16_fista_nonneg_minimiser.
    accepted and nu doubled every iteration until nu overflows and a NaN point is returned; witness in
    harness/gen_C16.py W_LM_NAN, replayed on every run).  Rounding is not modelled, so there is no _refuted
    companion in exact arithmetic. *)
+(* superseded for the carrier R by C16_lm_stationary below (full); kept because it holds for every embedded carrier, incl. Qc *)
 Theorem C16_lm_stationary_partial :
   forall (T : Type) (t0 t1 : T) (tadd tmul tsub : T -> T -> T) (topp : T -> T)
          (tdiv : T -> T -> T) (tleb : T -> T -> bool) (phi : T -> R),
@@ -448,6 +450,136 @@ Proof. exact lbfgsb_status_spec. Qed.
 Print Assumptions C16_wrappers_lbfgsb.
 
 (* ------------------------------------------------------------------------------------------------
+   deepening round: what "stationary point of the sum of squares" and "run to convergence" mean
+   ------------------------------------------------------------------------------------------------ *)
+
+(* For residuals F : R^n -> R^m and ANY matrix J that is the Jacobian of F at x along d (each component of
+   t |-> F(x + t d) has derivative (J d)_i at 0): f = 1/2 |F|^2 has at x, in direction d, the derivative <d, J^T F(x)>.
+   So the vector J^T F that LM forms is the gradient of the sum of squares. *)
+Theorem C16_sum_of_squares_gradient :
+  forall (n m : nat) (F : list R -> list R) (J : list (list R)) (x d : list R),
+  wf_mat n J -> length J = m -> length x = n -> length d = n ->
+  (forall t, length (F (line x d t)) = m) ->
+  (forall i, (i < m)%nat -> is_derive (fun t => nth i (F (line x d t)) 0%R) 0%R (nth i (matvec 0%R Rplus Rmult J d) 0%R)) ->
+  is_derive (fun t => (/ 2 * normsq 0%R Rplus Rmult (F (line x d t)))%R) 0%R
+            (dot 0%R Rplus Rmult d (mattvec 0%R Rplus Rmult n J (F x))).
+Proof. exact sos_directional_derivative. Qed.
+Print Assumptions C16_sum_of_squares_gradient.
+
+(* all directional derivatives <d, g> vanish iff g = 0 *)
+Theorem C16_gradient_zero_iff : forall (n : nat) (g : list R), length g = n ->
+  ((forall d, length d = n -> dot 0%R Rplus Rmult d g = 0%R) <-> g = vzero 0%R n).
+Proof. exact gradient_zero_iff. Qed.
+Print Assumptions C16_gradient_zero_iff.
+
+(* LM, full statement over the reals (LA.norm = sqrt of the sum of squares; LA.solve any function returning n numbers):
+   for residuals differentiable along every line with the Jacobian jacfun, the returned point x has
+   d/dt 1/2|F(x + t d)|^2 = <d, g(x)> for every direction d, with g = J^T F, and unless maxit was reached
+   |g(x)| <= gradtol |g(x0)| (or x0 was already stationary and is returned): a gradtol-stationary point of the sum of squares. *)
+Theorem C16_lm_stationary :
+  forall (n m : nat) (F : list R -> list R) (Jf : list R -> list (list R)) (solve : list (list R) -> list R -> list R),
+  (forall M g, length (solve M g) = n) ->
+  (forall x, length x = n -> wf_mat n (Jf x) /\ length (Jf x) = m) ->
+  (forall x, length x = n -> length (F x) = m) ->
+  (forall x d i, length x = n -> length d = n -> (i < m)%nat ->
+     is_derive (fun t => nth i (F (line x d t)) 0%R) 0%R (nth i (matvec 0%R Rplus Rmult (Jf x) d) 0%R)) ->
+  forall (nu0 gradtol : R) (x0 : list R) (maxit : nat) (st : lm_state R) (i : nat),
+  length x0 = n ->
+  lm_solve R 0%R 1%R Rplus Rmult Rminus Ropp Rdiv Rleb F Jf solve Rnorm2 n nu0 gradtol x0 maxit = (st, i) ->
+  let x := lm_x R st in
+  length x = n /\ (i <= maxit)%nat /\
+  (forall d, length d = n ->
+     is_derive (fun t => (/ 2 * normsq 0%R Rplus Rmult (F (line x d t)))%R) 0%R (dot 0%R Rplus Rmult d (grad n F Jf x))) /\
+  ((i < maxit)%nat -> (Rnorm2 (grad n F Jf x) <= gradtol * Rnorm2 (grad n F Jf x0))%R \/ (Rnorm2 (grad n F Jf x0) = 0%R /\ x = x0)).
+Proof. exact lm_stationary_R. Qed.
+Print Assumptions C16_lm_stationary.
+
+(* the residual families of the LM cells satisfy the differentiability hypothesis with the Jacobians the harness passes:
+   one unknown, r_i = a_i x^2 + b_i x + c_i (Model quadF / quadJ, transcribed to R), and the two-unknown family
+   sigma [a (x1 - x0^2), b - x0, c x0 x1 - d] (harness lm2_funcs; Rosenbrock is a = 10, b = 1, c = d = 0) *)
+Theorem C16_lm_cells_differentiable :
+  (forall (co : list (R * R * R)) (v dv : R),
+     (forall t, length (quadF_R co (line (v :: nil) (dv :: nil) t)) = length co) /\
+     wf_mat 1 (quadJ_R co (v :: nil)) /\ length (quadJ_R co (v :: nil)) = length co /\
+     forall i, (i < length co)%nat ->
+       is_derive (fun t => nth i (quadF_R co (line (v :: nil) (dv :: nil) t)) 0%R) 0%R
+                 (nth i (matvec 0%R Rplus Rmult (quadJ_R co (v :: nil)) (dv :: nil)) 0%R)) /\
+  (forall (sg a b c d x0 x1 d0 d1 : R),
+     (forall t, length (lm2F sg a b c d (line (x0 :: x1 :: nil) (d0 :: d1 :: nil) t)) = 3%nat) /\
+     wf_mat 2 (lm2J sg a b c d (x0 :: x1 :: nil)) /\ length (lm2J sg a b c d (x0 :: x1 :: nil)) = 3%nat /\
+     forall i, (i < 3)%nat ->
+       is_derive (fun t => nth i (lm2F sg a b c d (line (x0 :: x1 :: nil) (d0 :: d1 :: nil) t)) 0%R) 0%R
+                 (nth i (matvec 0%R Rplus Rmult (lm2J sg a b c d (x0 :: x1 :: nil)) (d0 :: d1 :: nil)) 0%R)).
+Proof. split; [exact quad_line_derivable | exact lm2_line_derivable]. Qed.
+Print Assumptions C16_lm_cells_differentiable.
+
+(* CGLS in exact arithmetic (carrier embedded in R with a compatible division: Qc, R; fwd and adj linear, adj the exact
+   adjoint): for every k, as long as the curvature delta_j = |A p_j|^2 + shift |p_j|^2 is positive,
+     <s_{j+1}, p_j> = 0   and   Phi(x_{j+1}) = Phi(x_j) - gamma_j^2 / delta_j,   Phi(x) = |b - A x|^2 + shift |x|^2 :
+   the regularised least-squares objective decreases monotonically, strictly while the normal-equation residual is not 0.
+   _partial as a convergence statement: mutual conjugacy of all directions / termination in n steps is NOT proved. *)
+Theorem C16_cgls_monotone_partial :
+  forall (T : Type) (t0 t1 : T) (tadd tmul tsub : T -> T -> T) (topp : T -> T),
+  ring_theory t0 t1 tadd tmul tsub topp eq ->
+  forall (tdiv : T -> T -> T) (tleb : T -> T -> bool) (teps : T) (phi : T -> R),
+  embedding T t0 t1 tadd tmul tsub topp tleb phi ->
+  (forall a b, phi b <> 0%R -> phi (tdiv a b) = (phi a / phi b)%R) ->
+  forall (n m : nat) (fwd adj : list T -> list T), adjoint_pair T t0 tadd tmul tsub n m fwd adj ->
+  forall (b : list T) (shift : T), length b = m -> forall (x0 : list T), length x0 = n -> forall (k : nat),
+  let it := fun j => cgls_iter T t0 tadd tmul tsub tdiv tleb teps fwd adj shift j (cgls_init T t0 tadd tmul tsub fwd adj b shift x0) in
+  let PhiR := fun x => phi (Phi T t0 tadd tmul tsub fwd b shift x) in
+  let deltaR := fun p => phi (delta_of T t0 tadd tmul fwd shift p) in
+  (forall j, (j < k)%nat -> (0 < deltaR (cg_p T (it j)))%R) ->
+  (PhiR (cg_x T (it k)) <= PhiR x0)%R /\
+  forall j, (j < k)%nat ->
+    phi (dot t0 tadd tmul (cg_s T (it (S j))) (cg_p T (it j))) = 0%R /\
+    PhiR (cg_x T (it (S j))) = (PhiR (cg_x T (it j)) - phi (cg_gamma T (it j)) * phi (cg_gamma T (it j)) / deltaR (cg_p T (it j)))%R.
+Proof. exact cgls_monotone_pkg. Qed.
+Print Assumptions C16_cgls_monotone_partial.
+
+(* every matrix gives such a pair *)
+Theorem C16_matrix_form_is_adjoint_pair :
+  forall (T : Type) (t0 t1 : T) (tadd tmul tsub : T -> T -> T) (topp : T -> T),
+  ring_theory t0 t1 tadd tmul tsub topp eq ->
+  forall (n : nat) (A : list (list T)), wf_mat n A ->
+  adjoint_pair T t0 tadd tmul tsub n (length A) (matvec t0 tadd tmul A) (mattvec t0 tadd tmul n A).
+Proof. exact matrix_adjoint_pair. Qed.
+Print Assumptions C16_matrix_form_is_adjoint_pair.
+
+(* FINDING (CGLS.solve|normx-clause-returns-unconverged-point; PCGLS has the same line): the second disjunct of
+   C16_cgls_normal_equations is not vacuous -- the absolute clause |x| tol >= 1 ends the loop before maxit at a point whose
+   normal-equation residual is NOT within tol of its start value, and (x, k) is returned like a converged run.
+   By the property's text such a run is not "run to convergence"; the caller cannot tell.  Witness: b = 1e9 [1,2,3], tol = 1e-6. *)
+Theorem C16_cgls_normx_refuted :
+  exists (n : nat) (A : list (list Qc)) (b : list Qc) (shift : Qc) (x0 : list Qc) (maxit : nat) (tol : Qc) (x : list Qc) (k : nat),
+    wf_mat n A /\ length b = length A /\ length x0 = n /\
+    q_cgls_solve (qmatvec A) (qmattvec n A) b shift x0 maxit tol = (x, k) /\ (k < maxit)%nat /\
+    qc_leb (qnormsq (ne_residual n A b shift x)) (qnormsq (ne_residual n A b shift x0) * (tol * tol))%Qc = false /\
+    qc_leb 1%Qc (qnormsq x * (tol * tol))%Qc = true.
+Proof. exact cgls_normx_refuted. Qed.
+Print Assumptions C16_cgls_normx_refuted.
+
+(* non-vacuity of the monotonicity theorem: the 3x2 matrix form at Qc with shift 1/2 satisfies every hypothesis for k = 2 *)
+Example C16_monotone_nonvacuous :
+  let A := qmat [[1; 0]; [0; 2]; [1; 1]]%Q in
+  let b := qvec [1; 2; 3]%Q in
+  let x0 := qvec [1; -1]%Q in
+  adjoint_pair Qc 0%Qc Qcplus Qcmult Qcminus 2 3 (qmatvec A) (qmattvec 2 A) /\
+  (forall a c, phiQ c <> 0%R -> phiQ (a / c)%Qc = (phiQ a / phiQ c)%R) /\
+  forall j, (j < 2)%nat ->
+    (0 < phiQ (delta_of Qc 0%Qc Qcplus Qcmult (qmatvec A) (qc (1 # 2))
+                 (cg_p Qc (cgls_iter Qc 0%Qc Qcplus Qcmult Qcminus Qcdiv qc_leb qc_eps (qmatvec A) (qmattvec 2 A) (qc (1 # 2)) j
+                             (cgls_init Qc 0%Qc Qcplus Qcmult Qcminus (qmatvec A) (qmattvec 2 A) b (qc (1 # 2)) x0)))))%R.
+Proof.
+  cbn zeta. split; [ | split].
+  - apply (matrix_adjoint_pair Qc 0%Qc 1%Qc Qcplus Qcmult Qcminus Qcopp Qcrt 2 (qmat [[1; 0]; [0; 2]; [1; 1]]%Q)). repeat constructor.
+  - exact phiQ_div.
+  - intros j Hj. apply Rnot_le_lt. intros H. rewrite <- phiQ_0 in H. apply phiQ_leb in H.
+    destruct j as [|[|j]]; [vm_compute in H; discriminate | vm_compute in H; discriminate | lia].
+Qed.
+Print Assumptions C16_monotone_nonvacuous.
+
+(* ------------------------------------------------------------------------------------------------
    non-vacuity: the hypotheses are satisfiable and the conclusions are not trivially true
    ------------------------------------------------------------------------------------------------ *)
 (* a 3x2 problem with shift 1/2 from a non-zero start: the matrix is a linear_op, CGLS stops by its residual
@@ -461,7 +593,7 @@ Example C16_nonvacuous :
   linear_op Qc Qcplus Qcmult 2 3 (qmatvec A) (qmattvec 2 A) /\
   (exists x, q_cgls_solve (qmatvec A) (qmattvec 2 A) b shift x0 10 (qc (1 # 1000000)) = (x, 2%nat) /\
              qnormsq (ne_residual 2 A b shift x) = 0%Qc /\ x <> x0) /\
-  q_pg_map (qmatvec (qmat [[1]]%Q)) (qmattvec 1 (qmat [[1]]%Q)) (qvec [2]%Q) (q_prox (PxL1 1)) 1%Qc (qvec [1]%Q) = qvec [1]%Q.
+  q_pg_map (qmatvec (qmat ((1%Q :: nil) :: nil))) (qmattvec 1 (qmat ((1%Q :: nil) :: nil))) (qvec (2%Q :: nil)) (q_prox (PxL1 1)) 1%Qc (qvec (1%Q :: nil)) = qvec (1%Q :: nil).
 Proof.
   cbn zeta. split; [ | split].
   - apply (matrix_linear_op Qc 0%Qc 1%Qc Qcplus Qcmult Qcminus Qcopp Qcrt 2 (qmat [[1; 0]; [0; 2]; [1; 1]]%Q)).
